@@ -97,7 +97,7 @@ func (s *substitution) item(d M) {
 				d[c] = s.str(v)
 			}
 		}
-	case "cell":
+	case "cell", "cellptr":
 		s.item(opMap(d, "inner"))
 	}
 }
